@@ -104,6 +104,14 @@ def run(chk, repo, tier):
     ext = [q for q in CONCRETE if not q.endswith("_FQ")]
     for q, key, ok, det, where in schema_obligations(repo, ext):
         chk.ob("C08.R8", q, key, ok, det, where)
+    if tier == "thorough":
+        # other primes and a dense quadratic modulus (the synthetic degree-12 modulus is not irreducible: inversion is not claimed there)
+        from ..polyeuclid import check_inv_schema
+        for cls in synthetic_classes(repo):
+            S = FieldSubject(w, cls)
+            if S.kind == "FQP" and S.d == 2:
+                for key, ok, det, where in check_inv_schema(S):
+                    chk.ob("C08.R8", cls.qualname, key, ok, det, where)
     # ---- R5 / R6
     pow_obligations(chk, repo, w)
     chk.note_analysed(field_classes=len(classes), operator_obligations=nres)
